@@ -158,8 +158,8 @@ def _child_run(case, q):
 # configuration fields a later run may differ in from an earlier one of the same process, with two values each
 ONE_FIELD = [
     (["detector", "radio", "gain"], 1.8, 9.0),
-    (["simulation", "ionosphere", "total_electron_content"], 10.0, 55.0),
-    (["simulation", "ionosphere", "total_electron_error"], 0.1, 7.5),
+    (["simulation", "ionosphere", "total_electron_content"], 10.0, [55.0, -1.0, 0.0]),
+    (["simulation", "ionosphere", "total_electron_error"], 0.1, [7.5, 20.0, 0.0]),  # (a TEC error above 10 switches the dispersion off)
     (["detector", "radio", "nantennas"], 10, 3),
     (["detector", "radio", "snr_threshold"], 5.0, 0.01),
     (["detector", "radio", "high_frequency"], 300.0, 500.0),
@@ -184,7 +184,7 @@ def _one_field_cases(tier):
             for order in ([(seed + i + rep) % 2] if tier == "quick" else [0, 1]):
                 mode = "Diffuse" if rng.random() < 0.75 else "Target"
                 yield {
-                    "field": i, "order": order, "mode": mode, "n": int(rng.choice([40, 120])),
+                    "field": i, "order": order, "mode": mode, "alt_pick": seed + rep + order, "n": int(rng.choice([40, 120])),
                     "spectrum": [{"id": "monospectrum", "log_nu_energy": float(rng.choice([9.0, 10.5]))}, {"id": "powerspectrum", "index": 2.0, "lower_bound": 8.0, "upper_bound": 11.0}][int(rng.integers(0, 2))],
                     "cloud": [{"id": "no_cloud"}, {"id": "monocloud", "altitude": 4.0}, {"id": "pressure_map", "month": int(rng.integers(1, 13))}][int(rng.integers(0, 3))],
                     "optical": True, "radio": True, "det": float(rng.choice([525.0, 2000.0, 400.0])), "lat": 0.3, "lon": 1.1,
@@ -199,6 +199,8 @@ def body_one_field(case):
     import multiprocessing as mp
 
     path, v_plain, v_other = ONE_FIELD[case["field"] % len(ONE_FIELD)]
+    if isinstance(v_other, list):  # several alternative values (either side of a threshold): one per case
+        v_other = v_other[case.get("alt_pick", 0) % len(v_other)]
     plain = dict(case, tweaks=[] if v_plain is None else [[path, v_plain]])
     other = dict(case, tweaks=[[path, v_other]])
     first, second = (other, plain) if case["order"] == 0 else (plain, other)
